@@ -28,6 +28,15 @@ def run(ck):
     ck.rule("C08-O4", "CRC-32: polynomial 0xEDB88320, init and final xor 0xFFFFFFFF, table[(crc ^ byte) & 0xFF] ^ (crc >> 8) over every byte read, 256-entry table built by 8 shift/xor steps")
     ck.rule("C08-O6", "the file handed to compressFile() is complete on disk: rotate() closes or flushes the sink's own buffered QFile on every path before the rename and before the compression")
     ck.require(closed_before_handover(ck, S, "C08-O6", "C08") >= 2, "rotate(): rename / compressFile hand-over sites not found")
+    # the only place an uncompressed rotated file may vanish for the sake of compression is compressFile(), after its copy is complete
+    from rules.c05 import allowed_destructive
+    for f_, n_, k_ in S.destructive_sites():
+        if k_ != "remove":
+            continue
+        ok_, why_ = allowed_destructive(S, f_, n_, k_)
+        ck.ob("C08-O6", sitestr(f_, n_), ok_, "%s: %s" % (describe(n_)[:50], why_) if ok_ else
+              "%s removes a file outside compressFile()/retention (%s): an uncompressed rotated file can disappear although its compressed copy is not known to be complete" %
+              (strip_tmpl(f_.name).split("::")[-1], why_), key="remove|%s|%s" % (strip_tmpl(f_.name).split("::")[-1], "ok" if ok_ else why_))
     ck.rule("C08-O5", "ordering: rewind between the CRC pass and readAll; every write precedes close of the output; the original is removed only after that close; early returns precede any write or remove")
     fn = S.m["compressFile"]
     g = S.g(fn)
